@@ -526,7 +526,7 @@ def build(ctx):
     if getattr(C, 'tier', 'quick') == 'thorough':
         # the thorough tier explores one step deeper (histories of 5 set operations, 5 connectivity checks)
         for a, b in (('while step < 4 {', 'while step < 5 {'), ('every history of 4 operations', 'every history of 5 operations'),
-                     ('naddr, false, 4, false);', 'naddr, false, 5);'), ('every run of 4 connectivity checks', 'every run of 5 connectivity checks')):
+                     ('naddr, false, 4, false);', 'naddr, false, 5, false);'), ('every run of 4 connectivity checks', 'every run of 5 connectivity checks')):
             assert h.count(a) == 1, a
             h = h.replace(a, b)
     t += h
